@@ -904,6 +904,22 @@ public:
         "tainted<int, T_Sbx> a, tainted<int, T_Sbx> b) {...}\n");
     }
     else if_constexpr_named(
+      cond2b,
+      !(std::is_same_v<T_Sbx, detail::rlbox_get_wrapper_sandbox_t<T_Args>> &&
+        ...) ||
+        !(std::is_void_v<T_Ret> ||
+          !detail::rlbox_is_tainted_or_opaque_v<T_Ret> ||
+          std::is_same_v<T_Sbx, detail::rlbox_get_wrapper_sandbox_t<T_Ret>>))
+    {
+      rlbox_detail_static_fail_because(
+        cond2b,
+        "The tainted or tainted_opaque arguments and return value of the "
+        "callback have to belong to the sandbox type the callback is "
+        "registered with. Mixing tainted data from a different sandbox type "
+        "is not allowed, unwrap the tainted data with copy_and_verify or "
+        "other unwrapping APIs first.");
+    }
+    else if_constexpr_named(
       cond3, (std::is_array_v<detail::rlbox_remove_wrapper_t<T_Args>> || ...))
     {
       rlbox_detail_static_fail_because(
